@@ -211,7 +211,83 @@ def compare(spec, real):
     return bad
 
 
+def free_running(data):
+    """pattern T: threads extract freely while an environment thread edits sys.modules; probes only log"""
+    import random
+    cfg = data["config"]
+    world = World(cfg)
+    rng = random.Random(data.get("seed", 0))
+    names = data["threads"]
+    traces = []
+    old = sys.getswitchinterval()
+    sys.setswitchinterval(1e-5)
+    try:
+        world.reset()
+        stackscope.extract(None, with_contexts=False)      # warm-up (lazy imports)
+        for rnd in range(data["rounds"]):
+            world.reset()
+            events = []
+
+            def sink(name, fields, events=events):
+                t = threading.current_thread().name
+                if t not in names or name not in POINT:
+                    return
+                m = fields.get("module")
+                if name in ("glue_next", "glue_popb", "glue_popm", "glue_called"):
+                    if not m.startswith("zz_verif_"):
+                        return
+                    m = m[len("zz_verif_"):]
+                else:
+                    m = "-"
+                events.append({"t": t, "e": "arrive", "p": POINT[name], "m": m, "op": "-"})
+            _verif.sink = sink
+            barrier = threading.Barrier(len(names) + 1)
+            nex = rng.choice([1, 2, 2, 3])
+
+            def work():
+                me = threading.current_thread().name
+                barrier.wait()
+                for _ in range(nex):
+                    with warnings.catch_warnings():
+                        warnings.simplefilter("ignore")
+                        stackscope.extract(None, with_contexts=False)
+                    events.append({"t": me, "e": "arrive", "p": "idle", "m": "-", "op": "-"})   # back outside the routine
+
+            def env():
+                barrier.wait()
+                present = set()
+                for _ in range(rng.choice([2, 3, 4, 5])):
+                    m = rng.choice(world.mods)
+                    if m in present:
+                        events.append({"t": "env", "e": "begin", "p": "-", "m": m, "op": "Remove"})
+                        sys.modules.pop(zz(m), None)
+                        present.discard(m)
+                    else:
+                        events.append({"t": "env", "e": "begin", "p": "-", "m": m, "op": "Import"})
+                        sys.modules[zz(m)] = world.modobj[m]
+                        present.add(m)
+                    events.append({"t": "env", "e": "end", "p": "-", "m": m, "op": "-"})
+                    for _ in range(rng.choice([0, 50, 400])):
+                        pass
+            ths = [threading.Thread(target=work, name=n) for n in names] + [threading.Thread(target=env, name="env")]
+            for th in ths:
+                th.start()
+            for th in ths:
+                th.join(30)
+            _verif.sink = None
+            traces.append({"events": events, "calls": [list(c) for c in world.calls]})
+    finally:
+        _verif.sink = None
+        sys.setswitchinterval(old)
+        world.reset()
+    return {"traces": traces}
+
+
 def main():
+    if len(sys.argv) > 3 and sys.argv[3] == "free":
+        data = json.load(open(sys.argv[1]))
+        json.dump(free_running(data), open(sys.argv[2], "w"))
+        return
     data = json.load(open(sys.argv[1]))
     world = World(data["config"])
     threads = sorted({a[1] for b in data["behaviours"] for a in b["acts"] if a[0] == "Start"})
